@@ -130,6 +130,14 @@ def check_case(case, ctx):
     ctx.check(isinstance(f, np.ndarray) and f.shape == x.shape, "shape", desc, f"{getattr(f, 'shape', None)} vs {x.shape}")
     ctx.check(np.array_equal(before_x, x) and pstate(params) == before_p, "inputs-modified", desc,
               "model() changed its abscissa or parameters")
+    # the wrapped model is the module's function of the approach-ordered abscissa (in one piece), re-oriented
+    if isinstance(f, np.ndarray) and f.shape == x.shape and not hasattr(md.module, "model"):
+        vals = make_params(md, case).valuesdict()
+        direct = md.module.model_func(x_desc.copy(), **vals)
+        direct = direct[::-1] if case["ascending"] else direct
+        ctx.check(np.array_equal(direct, f), "model-differs-from-model_func", desc,
+                  f"model(params, x) != model_func(approach-ordered x, **values) re-oriented; max diff "
+                  f"{np.max(np.abs(direct - f)):.3e}")
     # orientation: result for the reversed array is the reversed result
     f_rev = md.model(make_params(md, case), x[::-1].copy())
     ctx.check(np.array_equal(f_rev[::-1], f), "orientation", desc,
